@@ -27,6 +27,9 @@ func init() {
 	}, runC14)
 
 	addVariants(
+		Variant{ID: "c14-r6-rejects-last-one-byte-value", Prop: "C14", File: "replication/binlog_event_json.go",
+			Old: "\t\toffset, _ := readOffsetOrSize(data, pos, large)\n", New: "\t\toffset, _ := readOffsetOrSize(data, pos, large)\n\t\tif offset >= len(data)-1 {\n\t\t\treturn fmt.Errorf(\"bad offset\")\n\t\t}\n",
+			Expect: "C14-R6 entry-accepts@"},
 		Variant{ID: "c14-r1-missing-uint64", Prop: "C14", File: "replication/binlog_event_json.go",
 			Old: "\tcase jsonTypeUint64:\n\t\tprintJSONUint64(data[0:8], toplevel, result)\n", New: "",
 			Expect: "C14-R1 dispatch@printJSONValue"},
@@ -456,6 +459,7 @@ func runC14(a *A) {
 			fmt.Sprintf("the %s offset/size reader yields %s and advances by %s; it must read %d little-endian bytes and advance by %d", cls, v, adv, n, n))
 	}
 	c14R5(a)
+	c14R6(a, pe, pv)
 }
 
 func c14R5(a *A) {
@@ -758,4 +762,61 @@ func specCallee(res *Result, c *ssa.Call) *Result {
 		}
 	}
 	return Specialize(cal, bind, nil)
+}
+
+// R6: an out-of-line value that starts inside the document is never rejected by the entry printer. The value printer is
+// handed data[off:]; its first byte exists iff off < len(data). A failing exit of the entry printer whose condition
+// mentions the document length must therefore imply off >= len(data): with E <= 0 the rejecting condition,
+// E - (len(data) - off) has to be non-negative. ("off >= len(data)-1" rejects the one-byte values - the empty string, a
+// literal - that end a document.)
+func c14R6(a *A, pe, pv *ssa.Function) {
+	const rule = "C14-R6"
+	w := a.W
+	t := newTB(Specialize(pe, nil, nil))
+	t.names[pe.Params[0]] = "data"
+	t.names[pe.Params[1]] = "pos"
+	var low ssa.Value
+	instrs(pe, func(in ssa.Instruction) {
+		c, ok := in.(*ssa.Call)
+		if !ok || c.Common().StaticCallee() != pv {
+			return
+		}
+		for _, arg := range c.Common().Args {
+			if sl, ok := arg.(*ssa.Slice); ok && sl.Low != nil && sl.High == nil {
+				low = sl.Low
+			}
+		}
+	})
+	if low == nil {
+		a.hold(rule, "entry-accepts@"+roleName(pe), w.pos(pe.Pos()), "the out-of-line value is not passed as data[off:] here (nothing to decide)")
+		return
+	}
+	fit := affAtom("len(data)").add(t.term(low), -1)
+	bad := 0
+	for _, ret := range returnsOf(pe) {
+		n := len(ret.Results)
+		if n == 0 || isNilConst(resolve(ret.Results[n-1])) {
+			continue
+		}
+		for _, ce := range dominatingConds(ret.Block()) {
+			bo, ok := ce.Cond.(*ssa.BinOp)
+			if !ok {
+				continue
+			}
+			e, ok := t.leqZeroAff(bo, !ce.Val)
+			if !ok || e.syms["len(data)"] == 0 {
+				continue
+			}
+			d := e.add(fit, -1)
+			k, isC := d.isConst()
+			if !(isC && k >= 0) {
+				bad++
+				a.viol(rule, fmt.Sprintf("entry-accepts@%s#%d", roleName(pe), bad), w.posOf(ret), "the entry printer fails when %s <= 0 although the out-of-line value it would print starts at %s inside the document: one-byte values (an empty string, a literal) at the end of a document are rejected and the whole cell fails to decode",
+					e.String(), t.term(low).String())
+			}
+		}
+	}
+	if bad == 0 {
+		a.hold(rule, "entry-accepts@"+roleName(pe), w.pos(pe.Pos()), "no failing exit rejects a value that starts inside the document")
+	}
 }
